@@ -177,6 +177,29 @@ class RewardRecorder:
         evaluation, whatever it remembered.  Other components: the value itself (no claim)."""
         if cc["kind"] != "sticky":
             return actual
+        # two components have their fresh value stated in their docstrings: computed here from the agent's own latest
+        # history item and the state the component was shown - never from the component's class
+        try:
+            lar, state, typ = call["lar"], call["state"], cc["typ"]
+            status = getattr(getattr(lar, "response", None), "status", None)
+            if typ == "green-admin-database-unreachable-penalty":
+                # "always recalculate fresh value": the connection attempt succeeded or it did not
+                return milli(1.0 if status == "success" else -1.0)
+            if typ == "webpage-unavailable-penalty":
+                # "when the agent requests to execute the browser and that request fails ..." -> -1; else by the outcome
+                # of the latest page load (200 -> 1, pending / no history -> 0, anything else -> -1)
+                if status != "success":
+                    return milli(-1.0)
+                try:
+                    hist = state["network"]["nodes"][comp.config.node_hostname]["applications"]["web-browser"]["history"]
+                except (KeyError, TypeError):
+                    hist = None
+                if not hist:
+                    return milli(0.0)
+                outcome = hist[-1]["outcome"]
+                return milli(0.0 if outcome == "PENDING" else 1.0 if outcome == 200 else -1.0)
+        except Exception:  # noqa - no claim
+            return actual
         saved = self.calls
         try:
             self.calls = {}
